@@ -32,6 +32,11 @@ class C09(Check):
             cfg["scheduler"]["agent"] = {"kind": "scripted", "script": [rng.randrange(8) for _ in range(rng.randint(1, 9))]}
         folder = rng.random() < 0.6
         ops = []
+        u0 = rng.random()
+        if u0 < 0.06:
+            ops.append(["calibrate", 0])                      # a session that ends before any batch
+        elif u0 < 0.14:
+            ops.append(["calibrate_fault", rng.randint(1, 2), 0])      # the very first batch fails
         for k in range(rng.randint(1, 4)):
             if k > 0 and rng.random() < 0.25:
                 # a batch fails (the model raises), the caller catches it and goes on with the same object
@@ -110,7 +115,13 @@ class C09(Check):
                         res.add("rl-bootstrap", "added-although-present", f"a Halton sampler was supplied but the first batch was produced by "
                                                                           f"sampler #{b0.pos}, which is not one of the {supplied} supplied samplers")
                 # every later batch (including failed/aborted ones: they consumed an action too) by a sampler the agent chose
-                used = [b.pos for b in sim.batches[1:]]
+                # every attempt up to and including the first *completed* batch is a bootstrap attempt (a failed first batch
+                # is retried with the bootstrap sampler); everything after it must be the agent's choice
+                first_done = next((k for k, b in enumerate(sim.batches) if done and b is done[0]), len(sim.batches) - 1)
+                for b in sim.batches[:first_done + 1]:
+                    if b.cls != "HaltonSampler":
+                        res.add("rl-bootstrap", "first-batch", f"a bootstrap attempt was made with {b.cls}, not with the Halton sampler")
+                used = [b.pos for b in sim.batches[first_done + 1:]]
                 pol = list(sim.policy_log)
                 j = 0
                 for k, p in enumerate(used):
